@@ -22,7 +22,7 @@ RULE = ("seeded raw MIDI files written with mido: ticks_per_beat in {24,48,96,10
         "group sounding = union of its tracks, signatures of considered tracks on the meta sequence only, no notes from "
         "ungrouped tracks. Non-trivial: resolution != 24 and >= 2 tracks.")
 PLAN = {"quick": {"cases": 1200, "jobs": 4, "timeout": 600},
-        "thorough": {"cases": 50000, "jobs": 16, "timeout": 3000, "budget_s": 420}}
+        "thorough": {"cases": 500000, "jobs": 16, "timeout": 3000, "budget_s": 360}}
 FLOORS = {"quick": {"c13.notes_position_checked": 3000, "c13.signature_position_checked": 500, "c13.long_track": 50,
                     "c13.omitted_track": 150, "c13.merged_group": 200, "c13.non_dyadic_resolution": 300},
           "thorough": {"c13.notes_position_checked": 150000}}
